@@ -28,7 +28,7 @@ func init() {
 var rateUnits = []struct {
 	s string
 	d time.Duration
-}{{"ns", time.Nanosecond}, {"us", time.Microsecond}, {"µs", time.Microsecond}, {"ms", time.Millisecond}, {"s", time.Second}, {"m", time.Minute}, {"h", time.Hour}}
+}{{"ns", time.Nanosecond}, {"us", time.Microsecond}, {"µs", time.Microsecond}, {"μs", time.Microsecond}, {"ms", time.Millisecond}, {"s", time.Second}, {"m", time.Minute}, {"h", time.Hour}}
 
 // closedLoop runs the pacer as an ideal attacker would, for the virtual time T, and returns the hits released.
 func closedLoop(p vegeta.Pacer, T time.Duration, limit uint64) (hits uint64, stopped bool) {
